@@ -201,28 +201,41 @@ func runC15(c *Ctx) {
 	}
 
 	// ---- R4: printed values and signed document share one GoldenMeasurement result ----
+	// Over VirtualFirmware and the unexported helpers it may be split into: exactly one
+	// GoldenMeasurement computation, and every function of the package that is handed golden-measurement
+	// content (the printers of measurement-only mode, SignDoc) gets it from that computation.
 	sl := flow.NewSlicer(c.P)
+	sl.LiftParams = 3
+	vfRegion := unexportedRegion(vf)
 	var gmCalls []ssa.Value
-	for _, call := range callsIn(vf, func(call ssa.CallInstruction) bool { return call.Common().StaticCallee() == gm }) {
-		gmCalls = append(gmCalls, call.Value())
+	for _, rf := range vfRegion {
+		for _, call := range callsIn(rf, func(call ssa.CallInstruction) bool { return call.Common().StaticCallee() == gm }) {
+			gmCalls = append(gmCalls, call.Value())
+		}
 	}
 	c.S.Floor("R4", "GoldenMeasurement calls in VirtualFirmware", 1, len(gmCalls))
 	if len(gmCalls) == 1 {
 		fromGM := func(v ssa.Value) bool { return v == gmCalls[0] }
+		inRegion := map[*ssa.Function]bool{}
+		for _, rf := range vfRegion {
+			inRegion[rf] = true
+		}
 		n := 0
-		for _, call := range callsIn(vf, func(call ssa.CallInstruction) bool {
-			f := call.Common().StaticCallee()
-			return f != nil && (f == sd || (load.RelPkg(f) == "endorse" && f != gm && takesGolden(f)))
-		}) {
-			f := call.Common().StaticCallee()
-			ok := false
-			for _, a := range call.Common().Args {
-				if isGoldenType(a.Type()) && sl.Derives(a, fromGM) {
-					ok = true
+		for _, rf := range vfRegion {
+			for _, call := range callsIn(rf, func(call ssa.CallInstruction) bool {
+				f := call.Common().StaticCallee()
+				return f != nil && (f == sd || (load.RelPkg(f) == "endorse" && f != gm && takesGolden(f)))
+			}) {
+				f := call.Common().StaticCallee()
+				ok := false
+				for _, a := range call.Common().Args {
+					if isGoldenType(a.Type()) && sl.Derives(a, fromGM) {
+						ok = true
+					}
 				}
+				n++
+				c.S.Check(ok, "R4", load.FuncName(rf)+"→"+f.Name(), c.pos(call.Pos()), "argument derives from the single GoldenMeasurement result", "measurement content handed to "+f.Name()+" does not derive from the GoldenMeasurement result of this run: what is reported can differ from what a real run signs")
 			}
-			n++
-			c.S.Check(ok, "R4", "endorse.VirtualFirmware→"+f.Name(), c.pos(call.Pos()), "argument derives from the single GoldenMeasurement result", "measurement argument does not derive from the GoldenMeasurement result of this run")
 		}
 		c.S.Floor("R4", "consumers of the golden measurement in VirtualFirmware", 2, n)
 	} else if len(gmCalls) > 1 {
